@@ -31,12 +31,18 @@ func bubbleGoroutinesExceptCaller() []string {
 	buf := make([]byte, 8<<20)
 	buf = buf[:runtime.Stack(buf, true)]
 	var o []string
+	mine := "" // "synctest bubble N" of the caller: goroutines stranded in the dead bubbles of earlier runs do not count
 	for i, b := range strings.Split(string(buf), "\n\n") {
+		nl := strings.IndexByte(b, '\n')
 		if i == 0 {
+			if nl > 0 {
+				if k := strings.Index(b[:nl], "synctest bubble "); k >= 0 {
+					mine = strings.TrimRight(b[k:nl], "]:")
+				}
+			}
 			continue
 		}
-		nl := strings.IndexByte(b, '\n')
-		if nl < 0 || !strings.Contains(b[:nl], "synctest bubble") {
+		if nl < 0 || mine == "" || !strings.Contains(b[:nl], mine+"]") {
 			continue
 		}
 		if strings.Contains(b, "synctest.Run") || strings.Contains(b, "testing.tRunner") || strings.Contains(b, "verifsimkit.RunOne") || strings.Contains(b, "testing/synctest.Test") {
